@@ -25,6 +25,8 @@ SHAPES = {
     "empty-block": [cont("b1"), cont("b2")],
     # larger shapes (thorough: exhaustive where feasible, else simulation)
     "mixed": [cont("b1", frames=[cont("f1", loops=[loop("", ["_s"], 1)])], loops=[loop("L1", ["_x", "_y"], 2), loop("", ["_t"], 1)]), cont("b2")],
+    "three-loops": [cont("b1", loops=[loop("L1", ["_x"], 1), loop("L2", ["_y"], 1), loop("", ["_s"], 1)])],
+    "frames+loops": [cont("b1", frames=[cont("f1", loops=[loop("", ["_s"], 1)]), cont("f2")], loops=[loop("L1", ["_x"], 1)]), cont("b2")],
     "wide": [cont("b1", frames=[cont("f1"), cont("f2", loops=[loop("L9", ["_q"], 2)])], loops=[loop("L1", ["_x"], 3)]), cont("b2", loops=[loop("", ["_s", "_t"], 1)])],
 }
 QUICK = ["loop2x1", "loop1x2", "frame+loop", "two-blocks", "two-loops", "two-frames", "nested-frames", "empty-cif", "empty-block"]
@@ -187,9 +189,9 @@ def run_walk_tlc(tree_tla, answers, tag, obs=None, obsrc=0, maxlen=80, simulate=
 def c14(tier, replay=None):
     rep = Report("C14", tier, "model_checking")
     binary = build("asan")
-    names = QUICK if tier == "quick" else QUICK + ["mixed"]
+    names = QUICK if tier == "quick" else QUICK + ["three-loops", "frames+loops"]
     # error codes: 10 everywhere; 1 (the value of CIF_FINISHED, which the walker uses internally) on the small shapes
-    answers_for = lambda n: [0, -1, -2, -3, 10, 1] if (n in ("loop2x1", "loop1x2", "two-loops", "empty-cif", "empty-block") or tier != "quick") and n != "mixed" else [0, -1, -2, -3, 10]
+    answers_for = lambda n: [0, -1, -2, -3, 10, 1] if (n in ("loop2x1", "loop1x2", "two-loops", "empty-cif", "empty-block") or tier != "quick") and n not in ("mixed", "three-loops", "frames+loops") else [0, -1, -2, -3, 10]
     covs = []
     total_programs = total_ok = 0
     tlc_states = tlc_trans = 0
